@@ -133,7 +133,26 @@ func replayOracle(key string, sc script) {
 	}
 	json.Unmarshal(b, &f)
 	if sc.Kind != "history" || len(f.Detail.History) == 0 {
-		fmt.Println("(query-space counterexample: the transcript above is the re-execution; expected values are in the replay file)")
+		var g struct {
+			Detail map[string]interface{} `json:"detail"`
+		}
+		json.Unmarshal(b, &g)
+		var stored []string
+		if l, ok := g.Detail["re_execution"].([]interface{}); ok {
+			for _, x := range l {
+				stored = append(stored, fmt.Sprint(x))
+			}
+		}
+		now := replyOfScript(sc)
+		if len(stored) > 0 && strings.Join(stored, "\x00") == strings.Join(now, "\x00") {
+			fmt.Println("oracle: the server answers exactly as recorded in the counterexample (expected values: see want/want_one_of in the replay file): still violating")
+			run.Violation(key, g.Detail)
+		} else {
+			fmt.Println("oracle: the server's answers differ from the recorded counterexample: the behaviour changed on this tree (run the check for a verdict)")
+			for i := range now {
+				fmt.Printf("   now: %s\n", vk.Q(now[i]))
+			}
+		}
 		return
 	}
 	for _, t := range []bool{false, true} {
